@@ -1,7 +1,7 @@
 import RModel
 open RModel RModel.Driver
 
-def stepAll (st : St) (cmd : List String) (got : String) : St × Verdict :=
+def stepFamilies (st : St) (cmd : List String) (got : String) : St × Verdict :=
   match step32 st cmd got with
   | some r => r
   | none =>
@@ -27,10 +27,17 @@ def stepAll (st : St) (cmd : List String) (got : String) : St × Verdict :=
   | some r => r
   | none => (st, if got.startsWith "skip" then none else some "skip")
 
+/-- plane-level BSI tracking runs alongside the command families: the extra checks use the state BEFORE the line -/
+def stepAll (st : St) (cmd : List String) (got : String) : St × Verdict :=
+  let extra := checkBsiL2 st cmd got
+  let (st', v) := if cmd.head? == some "bplanes" then (st, (none : Verdict)) else stepFamilies st cmd got
+  let st'' := trackBsiL2 st' cmd
+  (st'', match v with | some m => some m | none => extra)
+
 def pureQueries : List String :=
   ["card", "empty", "has", "min", "max", "rank", "sel", "cir", "iwi", "eq", "toarr", "toexarr", "nv", "pv", "nav", "pav",
    "andcard", "orcard", "isect", "wf", "size", "ser", "wrfail", "trunc", "chkeq", "dump", "dig", "kern", "kernwf", "popcnt", "dense", "densechk", "safe", "zdetach", "zsame", "frz", "frzsmall", "frzwfail", "fchk", "fgc",
-   "hasnext", "peek?", "peek!", "iterate", "values", "backward", "unset", "ranges"]
+   "bplanes", "hasnext", "peek?", "peek!", "iterate", "values", "backward", "unset", "ranges"]
 
 partial def loop (script go : IO.FS.Stream) (st : St) (lineNo : Nat) (fails : Nat) : IO Nat := do
   let l ← script.getLine
